@@ -106,7 +106,9 @@ def check(ctx, p, a, sp, before, cell, r, dims):
                 found = ijk
                 break
         if found is None:
-            ctx.fail('every image block sits at a distinct lattice offset i*A+j*B+k*C', detail=dict(block=b))
+            rest = [ijk for ijk in cands if ijk not in ident]
+            ctx.require('every image block sits at a distinct lattice offset i*A+j*B+k*C',
+                        OR(*[AND(*[EQ(res.pos[b * N + n][c], shifted(n, ijk)[c]) for n in range(N) for c in range(3)]) for ijk in rest]), detail=dict(block=b))
             return
         ident.append(found)
     ctx.require('each lattice offset (i,j,k) occurs exactly once', sorted(ident) == sorted(cands))
